@@ -26,6 +26,18 @@ class World:
         for c in self.crates.values():
             self.bodies.update(c.bodies)
         self._cg = None
+        # dispatch loops written as iterator pipelines consumed by the arena are read as the loops they stand for (inline.py)
+        if self.core is not None:
+            try:
+                import inline
+                for b in list(self.fn_bodies(self.core)):
+                    nb = inline.pipelines_desugared(self, b)
+                    if nb is not None:
+                        self.bodies[b.id] = nb
+                        if b.id in self.core.bodies:
+                            self.core.bodies[b.id] = nb
+            except Exception:
+                pass
 
     def n_bodies(self):
         return len(self.bodies)
